@@ -116,6 +116,22 @@ def s6(chk: Check, proj: Project, w) -> None:
     chk.ob("S6", "dependencies:urlpatterns:specific-routes-first", dm.loc(routes[0][1]) if routes else dm.loc(dm.tree), ok,
            "routes with more converters precede routes with fewer (a `str` converter also matches dots)" if ok else
            "a route with fewer converters precedes a more specific one: `<str:comp_cls_hash>` also matches dots, so `/cache/<hash>.<input_hash>.js` is captured by the two-part route as an unknown class hash and the announced URL answers 404")
+    # no memo in front of the cache backend: every function that asks the backend is undecorated
+    MEMO = ("lru_cache", "cache", "cached_property", "memoize")
+    nb = 0
+    for q, fn in sorted(dm.defs.items()):
+        if not isinstance(fn, ast.FunctionDef):
+            continue
+        asks = any(last_attr(c.func) == "get_component_media_cache" for c in calls(fn)) or any(last_attr(c.func) in ("get_script_content", "_is_script_in_cache") for c in calls(fn))
+        if not asks:
+            continue
+        nb += 1
+        memo = [d for d in fn.decorator_list if (dotted(d.func if isinstance(d, ast.Call) else d) or "").split(".")[-1] in MEMO]
+        chk.ob("S6", f"dependencies:{q}:no-memo-before-backend", dm.loc(memo[0]) if memo else dm.loc(fn), not memo,
+               "reads the cache backend on every call" if not memo else
+               f"`@{short(memo[0])}` remembers answers of the cache backend - including misses (None) - and is never invalidated: a script that was missing once (evicted, or requested before the first render) stays 404 after it has been re-cached and its URL re-emitted")
+    if nb < 4:
+        raise AnalysisError(f"C19-S6: only {nb} backend-reading functions found")
     mm, hf = proj.func("util.misc", "hash_comp_cls")
     md = [c for c in calls(hf, "md5")]
     ok = False
